@@ -145,6 +145,13 @@ class SymBuilder:
     def func(self, v):
         return v
 
+    def grid(self, name, rows, cols):
+        from .grid import new_grid
+        g = new_grid(self.ctx, name)
+        self.objects[name] = g
+        self.leaves[name] = ('grid', g)
+        return g
+
     def ghost(self, name, value):
         """Ghost state (spec-level value: python constant or z3 term)."""
         if isinstance(value, V):
@@ -178,6 +185,7 @@ def run_function_paths(prog, reg, con, case_assign, max_paths=400, quick_ms=300)
         return [pr]
     work = [[]]
     npaths = 0
+    callsites = {}
     while work:
         dec = work.pop()
         npaths += 1
@@ -187,7 +195,7 @@ def run_function_paths(prog, reg, con, case_assign, max_paths=400, quick_ms=300)
             pr.detail = 'path budget (%d) exhausted' % max_paths
             results.append(pr)
             break
-        ctx = Ctx(prog, reg, dec, work, quick_ms=quick_ms)
+        ctx = Ctx(prog, reg, dec, work, quick_ms=quick_ms, callsites=callsites)
         pr = PathResult()
         I = Interp(ctx)
         try:
@@ -199,7 +207,9 @@ def run_function_paths(prog, reg, con, case_assign, max_paths=400, quick_ms=300)
             fr = Frame(fi, fi.module, fi.cls, dict(args), con)
             if 'self' in args and isinstance(args['self'], VObj):
                 fr.recv_cls = ctx.heap[args['self'].oid].cls
-            pre = ContractView(ctx, ctx.heap, ctx.heap, args, dict(ctx.ghost))
+            snap0 = ctx.snapshot()
+            pre = ContractView(ctx, snap0, snap0, args, dict(ctx.ghost))
+            pre.g = dict(ctx.ghost)
             for cid, f in con.requires(pre):
                 ctx.assume_spec(f)
             if not ctx.feasible():
@@ -230,9 +240,16 @@ def run_function_paths(prog, reg, con, case_assign, max_paths=400, quick_ms=300)
                 pr.ctx = ctx
                 results.append(pr)
                 continue
-            post = ContractView(ctx, fr.pre_heap, ctx.heap, fr.pre_args, fr.pre_ghost,
-                                result=to_spec(ctx, ctx.heap, result), raised=raised, result_v=result, exc=excv)
-            post.l = LocalsView(ctx, ctx.heap, fr.locals)
+            if not ctx.feasible():
+                pr.status = 'infeasible'
+                pr.detail = 'path condition unsatisfiable at exit'
+                results.append(pr)
+                continue
+            snap1 = ctx.snapshot()
+            post = ContractView(ctx, fr.pre_heap, snap1, fr.pre_args, fr.pre_ghost,
+                                result=to_spec(ctx, snap1, result), raised=raised, result_v=result, exc=excv)
+            post.g = dict(ctx.ghost)
+            post.l = LocalsView(ctx, snap1, dict(fr.locals))
             if raised is not None and con.exits is not None and raised not in con.exits(post):
                 ctx.oblige('post.raises-only-declared', False, 'post', 'raised ' + raised)
             for cid, f in con.ensures(post):
@@ -253,5 +270,17 @@ def run_function_paths(prog, reg, con, case_assign, max_paths=400, quick_ms=300)
         except (_Break, _Continue):
             pr.status = 'unsupported'
             pr.detail = 'break/continue outside loop'
+        results.append(pr)
+    # vacuity guard: a call site at which every outcome of the callee contract contradicts the caller state
+    for site, (tried, ok) in callsites.items():
+        if tried and not ok:
+            pr = PathResult()
+            pr.status = 'unsupported'
+            pr.detail = 'vacuity: every outcome of the contract is infeasible at call site %s' % site
+            results.append(pr)
+    if not any(p.status == 'ok' for p in results) and not any('requires unsatisfiable' in (p.detail or '') for p in results):
+        pr = PathResult()
+        pr.status = 'unsupported'
+        pr.detail = 'vacuity: no feasible path reaches an exit of %s in this case' % con.name
         results.append(pr)
     return results
